@@ -44,6 +44,22 @@ def same(a, b):
 
 def draw_value(t, part):
     """one payload: None / scalar / tree with bytes / tuple of 2-3 values"""
+    if part.get('trees'):
+        # any tree of depth <= 2 and width <= 2 over {int, bytes} leaves (symbolic ints, concrete distinct bytes)
+        cnt = [0]
+
+        def tree(d):
+            k = t.choice(3) if d > 0 else 0
+            if k == 0:
+                if t.bool():
+                    return t.int(-3, 3)
+                cnt[0] += 1
+                return b'b%d' % cnt[0]
+            n = t.choice(3)
+            if k == 1:
+                return [tree(d - 1) for _ in range(n)]
+            return {['num', 'k1'][i]: tree(d - 1) for i in range(n)}
+        return tree(2)
     form = t.choice(5)
     x = t.int(0, 1) if part['serializer'] == 'msgpack' else t.int(-3, 3)      # msgpack realises: enumerated
     if form == 0:
@@ -93,14 +109,14 @@ def h(t, part):
         sids = L.connect()
     if not all(sids.values()):
         return Fail('e2e:setup', repr(sids))
-    ns = ['/', '/a'][t.choice(2)]
+    ns = '/a' if part.get('trees') else ['/', '/a'][t.choice(2)]
     ackmode = part['ack']                  # none / callback / call
     n = part['n']
     sent, acks, results = [], [], []
     waithook.HOOK[0] = (lambda ev, timeout: L.pump()) if not asyncio_ else None
     try:
         for k in range(n):
-            event = EVENTS[t.choice(len(EVENTS) if ackmode == 'none' else 2)]
+            event = 'ev' if part.get('trees') else EVENTS[t.choice(len(EVENTS) if ackmode == 'none' else 2)]
             if k > 0 and part.get('reuse'):
                 x = sent[0][1]          # the application sends the very same object again
             else:
@@ -191,6 +207,8 @@ def parts(tier):
                 # two consecutive messages: order; on asyncio also with handlers that suspend while the next arrives
                 out.append({'async': a, 'serializer': ser, 'direction': d, 'ack': 'none', 'n': 2, 'pump_each': False,
                             'suspend': a, 'reuse': True})
+                if ser == 'default':
+                    out.append({'async': a, 'serializer': ser, 'direction': d, 'ack': 'none', 'n': 1, 'trees': True})
     return out
 
 
@@ -204,7 +222,8 @@ META = dict(
                 'the result of call() and the order of handling are compared with the documented rules by a '
                 'type-strict structural equality.',
     bounds={'quick': 'one message per configuration {threaded, asyncio} x {default, msgpack} x {client->server, '
-                     'server->client} x {no ack, callback, call()} x 3 event names x 5 payload forms (x 5 return forms), '
+                     'server->client} x {no ack, callback, call()} x 3 event names x 5 payload forms (x 5 return forms); without ack also every payload tree of '
+                     'depth <= 2, width <= 2 over int/bytes leaves (default serializer); '
                      'symbolic ints -3..3 as leaves, strings with non-ASCII, NUL and non-BMP characters; two consecutive messages without ack carrying the same payload object (on asyncio '
                      'with handlers that suspend while the next message arrives; engine.io\'s task-per-message is modelled)',
             'thorough': 'same'},
